@@ -739,7 +739,11 @@ func (s *Store[K, V]) drainWrite() {
 
 	s.writeBuffer = s.writeBuffer[:0]
 	if wait {
-		s.waitChan <- true
+		select {
+		case s.waitChan <- true:
+		case <-s.ctx.Done():
+			// the waiter has given up (or will) because the cache is closed
+		}
 	}
 }
 
@@ -960,8 +964,14 @@ func (s *Store[K, V]) processSecondary() {
 func (s *Store[K, V]) Wait() {
 	s.waitMu.Lock()
 	defer s.waitMu.Unlock()
-	s.writeChan <- WriteBufItem[K, V]{code: WAIT}
-	<-s.waitChan
+	// after Close nobody answers markers any more: Wait returns at once
+	if !s.send(WriteBufItem[K, V]{code: WAIT}) {
+		return
+	}
+	select {
+	case <-s.waitChan:
+	case <-s.ctx.Done():
+	}
 }
 
 func (s *Store[K, V]) Recover(version uint64, reader io.Reader) error {
